@@ -58,6 +58,8 @@ FAMILIES = {
     "C05": ["op"],
     "C06": ["op"],
     "C07": ["slice"],
+    "C28": ["vts"],
+    "C29": ["vts"],
     "C25": ["monitor"],
     "C26": ["monitor"],
     "C27": ["monitor"],
@@ -84,6 +86,8 @@ def units_for(prop, tier):
         us += class_units(prop)
     if "slice" in fams:
         us.append({"runner": "slicelemma", "prop": prop, "id": "reactivex/operators/_slice.py::slice_"})
+    if "vts" in fams:
+        us.append({"runner": "vts", "prop": prop, "id": "reactivex/scheduler/virtualtimescheduler.py::VirtualTimeScheduler"})
     if "frame" in fams:
         us.append({"runner": "frame", "prop": prop, "id": f"frame-conditions/{prop}"})
     if "subscribe" in fams:
